@@ -5,7 +5,9 @@
    C++ operation. *)
 From Coq Require Import Reals ZArith List Lra.
 From Flocq Require Import Core.
-From Romea Require Import Num NumR GridMapModel GridMapProofs GridMapFloat.
+From Romea Require Import Num NumR GridMapModel GridMapProofs GridMapFloat SrcEigen SrcTieC13.
+From Romea.gen Require Import SrcGridMap.
+Import ListNotations.
 Local Open Scope R_scope.
 
 (* every in-range point is at least half a cell away from the values 0 and n where truncation would leave the
@@ -245,3 +247,87 @@ Example C13_binary32_ex_values :
   gm_index B32Ops (1 / 2) (gm_origin B32Ops (1 / 2) (-10)) 3 = 26%Z /\
   gm_centre B32Ops (1 / 2) (gm_origin B32Ops (1 / 2) (-10)) 26 = 3.
 Proof. exact ex_values_b32. Qed.
+
+(* ====================================================================================================
+   SYNTACTIC SOURCE TIE.  gen/SrcGridMap.v is regenerated on every run from the clang AST of the instantiations
+   GridIndexMapping<float|double, 2|3> of the current src/containers/grid/GridIndexMapping.cpp (translate/tr_C13_gridmap.py:
+   symbolic execution; Eigen array expressions are read axis by axis; the float and double instantiations must give the
+   same term).  The theorems below say that the generated terms ARE gm_origin / gm_ncells / gm_centre / gm_index /
+   gm_sym_lo of GridMapModel.v, for every numeric dictionary N reading the literals 0, 1, 0.5 as the model's constants
+   (LitOK N) — which ROps, B64Ops and B32Ops do: the object of the theorems over the reals above and of the Flocq theorems
+   is the term generated from the source.  Proofs by computation: same operations in the same order.
+   ==================================================================================================== *)
+Theorem C13_source_tie_dictionaries : LitOK ROps /\ LitOK B64Ops /\ LitOK B32Ops.
+Proof. exact (conj LitOK_R (conj LitOK_B64 LitOK_B32)). Qed.
+
+(* the interval constructor: outputs (cell-centre tables as (size, fun n => centre n) per axis, cellResolution_,
+   flooredMinimalPositionAlongAxes_, numberOfCellsAlongAxes_) *)
+Theorem C13_source_tie_constructor_2d : forall (T : Type) (N : NumOps T), LitOK N -> forall r lo0 lo1 hi0 hi1,
+  src_gm_ctor_2 N r lo0 lo1 hi0 hi1
+  = ([(gm_ncells N r lo0 hi0, gm_centre N r (gm_origin N r lo0)); (gm_ncells N r lo1 hi1, gm_centre N r (gm_origin N r lo1))],
+     r, [gm_origin N r lo0; gm_origin N r lo1], [gm_ncells N r lo0 hi0; gm_ncells N r lo1 hi1]).
+Proof. exact @tie_ctor_2. Qed.
+
+Theorem C13_source_tie_constructor_3d : forall (T : Type) (N : NumOps T), LitOK N -> forall r lo0 lo1 lo2 hi0 hi1 hi2,
+  src_gm_ctor_3 N r lo0 lo1 lo2 hi0 hi1 hi2
+  = ([(gm_ncells N r lo0 hi0, gm_centre N r (gm_origin N r lo0)); (gm_ncells N r lo1 hi1, gm_centre N r (gm_origin N r lo1));
+      (gm_ncells N r lo2 hi2, gm_centre N r (gm_origin N r lo2))],
+     r, [gm_origin N r lo0; gm_origin N r lo1; gm_origin N r lo2],
+     [gm_ncells N r lo0 hi0; gm_ncells N r lo1 hi1; gm_ncells N r lo2 hi2]).
+Proof. exact @tie_ctor_3. Qed.
+Print Assumptions C13_source_tie_constructor_3d.
+
+(* the (maximalRange, cellResolution) constructor delegates to the interval constructor on [-maximalRange, maximalRange]^DIM *)
+Theorem C13_source_tie_symmetric_constructor : forall (T : Type) (N : NumOps T) R r,
+  src_gm_symctor_2 N R r = src_gm_ctor_2 N r (gm_sym_lo N R) (gm_sym_lo N R) R R /\
+  src_gm_symctor_3 N R r = src_gm_ctor_3 N r (gm_sym_lo N R) (gm_sym_lo N R) (gm_sym_lo N R) R R R.
+Proof. intros T N R r. exact (conj (tie_symctor_2 N R r) (tie_symctor_3 N R r)). Qed.
+
+(* computeCellIndexes *)
+Theorem C13_source_tie_index : forall (T : Type) (N : NumOps T) r org0 org1 org2 p0 p1 p2,
+  src_gm_index_2 N p0 p1 r org0 org1 = [gm_index N r org0 p0; gm_index N r org1 p1] /\
+  src_gm_index_3 N p0 p1 p2 r org0 org1 org2 = [gm_index N r org0 p0; gm_index N r org1 p1; gm_index N r org2 p2].
+Proof. intros. exact (conj (tie_index_2 N r org0 org1 p0 p1) (tie_index_3 N r org0 org1 org2 p0 p1 p2)). Qed.
+
+(* computeCellCenterPosition on the tables the constructor built *)
+Theorem C13_source_tie_centre_2d : forall (T : Type) (N : NumOps T), LitOK N -> forall r lo0 lo1 hi0 hi1 k0 k1,
+  let tabs := tables_of (src_gm_ctor_2 N r lo0 lo1 hi0 hi1) in
+  src_gm_centre_2 k0 k1 (snd (nth 0 tabs (0%Z, fun _ => nzero N))) (snd (nth 1 tabs (0%Z, fun _ => nzero N)))
+  = [gm_centre N r (gm_origin N r lo0) k0; gm_centre N r (gm_origin N r lo1) k1].
+Proof. exact @tie_ctor_centre_2. Qed.
+
+Theorem C13_source_tie_centre_3d : forall (T : Type) (N : NumOps T), LitOK N -> forall r lo0 lo1 lo2 hi0 hi1 hi2 k0 k1 k2,
+  let tabs := tables_of (src_gm_ctor_3 N r lo0 lo1 lo2 hi0 hi1 hi2) in
+  src_gm_centre_3 k0 k1 k2 (snd (nth 0 tabs (0%Z, fun _ => nzero N))) (snd (nth 1 tabs (0%Z, fun _ => nzero N)))
+                  (snd (nth 2 tabs (0%Z, fun _ => nzero N)))
+  = [gm_centre N r (gm_origin N r lo0) k0; gm_centre N r (gm_origin N r lo1) k1; gm_centre N r (gm_origin N r lo2) k2].
+Proof. exact @tie_ctor_centre_3. Qed.
+
+(* the property itself, stated on the GENERATED terms in floating point: build the grid with the generated constructor, map a
+   point of the extent with the generated computeCellIndexes fed with the constructor's outputs; every index is in bounds *)
+Theorem C13_source_index_in_bounds_binary64 : forall r lo0 lo1 lo2 hi0 hi1 hi2 p0 p1 p2,
+  gmf_domain r lo0 hi0 -> gmf_domain r lo1 hi1 -> gmf_domain r lo2 hi2 ->
+  lo0 <= p0 <= hi0 -> lo1 <= p1 <= hi1 -> lo2 <= p2 <= hi2 ->
+  let '(tabs, res, orgs, ns) := src_gm_ctor_3 B64Ops r lo0 lo1 lo2 hi0 hi1 hi2 in
+  Forall2 (fun i n => (0 <= i < n)%Z) (src_gm_index_3 B64Ops p0 p1 p2 res (nth 0 orgs 0) (nth 1 orgs 0) (nth 2 orgs 0)) ns.
+Proof. exact src_index_in_bounds_3_b64. Qed.
+
+Theorem C13_source_index_in_bounds_binary64_2d : forall r lo0 lo1 hi0 hi1 p0 p1,
+  gmf_domain r lo0 hi0 -> gmf_domain r lo1 hi1 -> lo0 <= p0 <= hi0 -> lo1 <= p1 <= hi1 ->
+  let '(tabs, res, orgs, ns) := src_gm_ctor_2 B64Ops r lo0 lo1 hi0 hi1 in
+  Forall2 (fun i n => (0 <= i < n)%Z) (src_gm_index_2 B64Ops p0 p1 res (nth 0 orgs 0) (nth 1 orgs 0)) ns.
+Proof. exact src_index_in_bounds_2_b64. Qed.
+
+Theorem C13_source_index_in_bounds_binary32 : forall r lo0 lo1 lo2 hi0 hi1 hi2 p0 p1 p2,
+  gmf_domain32 r lo0 hi0 -> gmf_domain32 r lo1 hi1 -> gmf_domain32 r lo2 hi2 ->
+  lo0 <= p0 <= hi0 -> lo1 <= p1 <= hi1 -> lo2 <= p2 <= hi2 ->
+  let '(tabs, res, orgs, ns) := src_gm_ctor_3 B32Ops r lo0 lo1 lo2 hi0 hi1 hi2 in
+  Forall2 (fun i n => (0 <= i < n)%Z) (src_gm_index_3 B32Ops p0 p1 p2 res (nth 0 orgs 0) (nth 1 orgs 0) (nth 2 orgs 0)) ns.
+Proof. exact src_index_in_bounds_3_b32. Qed.
+
+Theorem C13_source_index_in_bounds_binary32_2d : forall r lo0 lo1 hi0 hi1 p0 p1,
+  gmf_domain32 r lo0 hi0 -> gmf_domain32 r lo1 hi1 -> lo0 <= p0 <= hi0 -> lo1 <= p1 <= hi1 ->
+  let '(tabs, res, orgs, ns) := src_gm_ctor_2 B32Ops r lo0 lo1 hi0 hi1 in
+  Forall2 (fun i n => (0 <= i < n)%Z) (src_gm_index_2 B32Ops p0 p1 res (nth 0 orgs 0) (nth 1 orgs 0)) ns.
+Proof. exact src_index_in_bounds_2_b32. Qed.
+Print Assumptions C13_source_index_in_bounds_binary32_2d.
